@@ -331,7 +331,7 @@ class Flow:
         try:
             out = []
             for d in self.defs_of(name_node):
-                conds = [(k, e, p) for k, e, p in guards.path_conditions(self.ff.node, d.stmt)] if d.stmt is not None else []
+                conds = [(k, e, p) for k, e, p in guards.path_conditions(self.ff.node, d.stmt, skip_raise_guards=True)] if d.stmt is not None else []
                 out.append((conds, self._def_term(d, depth, frozenset()), d))
             return out
         finally:
